@@ -198,6 +198,7 @@ class TunnelCommunity(Community):
         self.request_cache = RequestCache()
         self.decode_map_private: dict[int, Callable[[TunnelCommunity, Address, bytes, int | None], None]
                                            | Callable[[Address, bytes, int | None], None]] = {}
+        self.exit_msg_ids: set[int] = set()
 
         # Messages that can arrive from the socket
         self.add_message_handler(CellPayload.msg_id, self.on_cell)
@@ -288,11 +289,17 @@ class TunnelCommunity(Community):
 
     def add_cell_handler(self, payload_cls: type[VariablePayloadWID],
                          handler: Callable[[TunnelCommunity, Address, bytes, int | None], None] | \
-                                  Callable[[Address, bytes, int | None], None]) -> None:
+                                  Callable[[Address, bytes, int | None], None],
+                         from_exit: bool = False) -> None:
         """
         Handler for messages that are exclusively tunneled (i.e., never handled plaintext).
+
+        Only messages registered with ``from_exit`` are also accepted when they come back through an exit node, inside
+        a data packet. Their source address is then whatever the exit node reports.
         """
         self.decode_map_private[payload_cls.msg_id] = handler
+        if from_exit:
+            self.exit_msg_ids.add(payload_cls.msg_id)
 
     def _generate_circuit_id(self) -> int:
         circuit_id = random.getrandbits(32)
@@ -1014,9 +1021,10 @@ class TunnelCommunity(Community):
             e2e_data = circuit.ctype in [CIRCUIT_TYPE_RP_DOWNLOADER, CIRCUIT_TYPE_RP_SEEDER]
             if DataChecker.could_be_ipv8(data) and not e2e_data:
                 if self._prefix == data[:22]:
-                    if data[22] == DataPayload.msg_id:
+                    if data[22] not in self.exit_msg_ids:
                         # The origin is chosen by the sender: never let it stand in for the address a cell came from.
-                        self.logger.warning("Dropping data packet nested in a data packet from circuit %d", circuit_id)
+                        self.logger.warning("Dropping message %d nested in a data packet from circuit %d",
+                                            data[22], circuit_id)
                         return
                     self.logger.debug("Incoming packet meant for us")
                     self.on_packet_from_circuit(origin, data, circuit_id)
